@@ -83,7 +83,7 @@ func rulePAN5(p *Program) *RuleResult {
 			}
 		}
 	}
-	r.floor("nil_hypotheses", 10)
+	r.floor("nil_hypotheses", 6)
 	return r
 }
 
